@@ -107,7 +107,7 @@ def gen_scenario(rng: random.Random, seed: int, cls: str) -> dict:
         members.append(m)
     sc = dict(cls=cls, seed=seed, topics=topics, loglen=rng.choice([2, 4, 8]), nnodes=rng.choice([1, 2, 3]),
               join_max=rng.choice([0, 1, 2, 5, 5]), duration=dur, members=members, faults=dict(budget=0))
-    if cls in ("churn", "faults", "subs", "live", "syncfault", "latelookup", "grow", "slowrevoke", "joinauth"):
+    if cls in ("churn", "faults", "subs", "live", "syncfault", "latelookup", "grow", "slowrevoke", "joinauth", "txnlog"):
         for m in members:
             r = rng.random()
             if r < 0.30:
@@ -123,6 +123,10 @@ def gen_scenario(rng: random.Random, seed: int, cls: str) -> dict:
                             slow=rng.choice([0, 0.005, 0.03]))
         if sc["nnodes"] > 1 and rng.random() < 0.4:
             sc["failover"] = [round(0.3 + rng.random() * dur * 0.7, 3), rng.randrange(sc["nnodes"]), rng.random() < 0.5]
+    if cls == "txnlog":
+        # logs written by transactional producers (committed and aborted transactions of the same producers, markers),
+        # read_committed members: positions and commits step over markers / aborted records and over nothing else
+        sc["txnlog"] = True
     if cls == "live":
         # records keep arriving while members come and go: a getmany() parked before a rebalance began must stay
         # silent until the new assignment is in (C05), nothing is lost or skipped across the hand-over (C04)
